@@ -63,6 +63,12 @@ func scenario(c cfg) vrt.Scenario {
 		defer cancel()
 		vrt.Log(fmt.Sprintf("start %d", vrt.Clock()))
 		r.Start(ctx)
+		otherStopper := false
+		for _, s := range c.script {
+			if s.op == "stop-in-thread" {
+				otherStopper = true
+			}
+		}
 		for _, s := range c.script {
 			switch s.op {
 			case "sleep":
@@ -70,9 +76,16 @@ func scenario(c cfg) vrt.Scenario {
 			case "restart":
 				vrt.Log(fmt.Sprintf("restart %d", vrt.Clock()))
 				r.Restart()
+			case "stop-in-thread":
+				vrt.GoNamed("other-stopper", func() { r.Stop() })
 			case "stop":
 				r.Stop()
-				vrt.Log(fmt.Sprintf("stopret %d %d", vrt.Clock(), vrt.LiveOthers()))
+				// (a concurrent Stop caller of the script itself is not a goroutine of the runner)
+				others := vrt.LiveOthers()
+				if otherStopper {
+					others = 0
+				}
+				vrt.Log(fmt.Sprintf("stopret %d %d", vrt.Clock(), others))
 			case "cancel":
 				cancel()
 				vrt.Log(fmt.Sprintf("cancel %d", vrt.Clock()))
@@ -281,7 +294,9 @@ func scenariosFor(tier string) []vrt.Scenario {
 		add(b, s2, ms(30), sl(310), restart, sl(300), stop) // Restart while an invocation of the later schedule is in flight
 		add(b, s2, ms(120), sl(400), restart, sl(900), stop)
 		add(b, s5, 0, sl(520), stop)
-		add(b, s1, ms(120), sl(110), restart, restart, restart, stop) // Restarts pile up while the function executes
+		add(b, s2, 0, sl(150), restart, sl(600), stop)                         // after a Restart the later schedule is reached again
+		add(b, s1, ms(120), sl(110), step{op: "stop-in-thread"}, sl(50), stop) // two Stop calls while an invocation is in flight
+		add(b, s1, ms(120), sl(110), restart, restart, restart, stop)          // Restarts pile up while the function executes
 		add(b, s6, ms(30), sl(300), restart, sl(600), stop)
 		out = append(out, scenario(cfg{s2, ms(30), []step{sl(150), restart, sl(300), stop}}).WithPlainPoints(1))
 		out = append(out, scenario(cfg{s1, ms(30), []step{sl(110), stop}}).WithPlainPoints(1))
